@@ -50,6 +50,11 @@ class ProgGen:
     def leaf(self):
         r = self.rng.random()
         rng = self.rng
+        if self.seq and self.outs and rng.random() < 0.08:
+            small = [(n, w) for n, w in self.outs if w <= 16]
+            if small:
+                n, w = rng.choice(small)
+                return E('self.%s.get()' % n, 0, (1 << w) - 1, False)     # the value the output carried before this edge
         if r < 0.35 and self.ins:
             n, w = rng.choice(self.ins)
             return E('self.%s.get()' % n, 0, (1 << w) - 1, False)
